@@ -285,14 +285,21 @@ Definition out_sev (e : sev) : list N :=
   [Z.to_N (se_time e + TIME_BIAS); N_of_bool (se_client e); k; m; N_of_bool (se_pad e);
    N_of_bool (se_bypass e); N_of_bool (se_replace e)].
 
+(** The case carries the trace lines (time, is_send) in file order. When the
+    harness built the queue with parse_trace ([parsed] = Some real_pps) the
+    model parses too and reports its own pps on a line [2; pps] (the harness
+    prints the real queue's value); otherwise the lines are pushed as they
+    are (client sends at t, server sends at t - delay) with no pps limit. *)
 Definition run_sim (l : list N) : list (list N) :=
-  match (cc <~ pcfg_std ;; sc <~ pcfg_std ;; delay <~ pnum ;; pps <~ popt pnum ;; qpps <~ popt pnum ;;
+  match (cc <~ pcfg_std ;; sc <~ pcfg_std ;; delay <~ pnum ;; pps <~ popt pnum ;; parsed <~ pbool ;;
          mt <~ pnum ;; mi <~ pnum ;; cont <~ pbool ;; oc <~ pbool ;; on <~ pbool ;;
          q <~ plist pqev ;; tp <~ plist pnum ;;
-         pret (cc, sc, delay, pps, qpps, mksimargs mt mi cont oc on, q, tp)) l with
-  | Some ((cc, sc, delay, pps, qpps, args, q, tp), []) =>
-      let sq := fold_left (fun sq '(t, c) => sq_push sq (mksev TENormalSent t c false false false)) q
-                          (mksimq evq_empty evq_empty qpps) in
+         pret (cc, sc, delay, pps, parsed, mksimargs mt mi cont oc on, q, tp)) l with
+  | Some ((cc, sc, delay, pps, parsed, args, q, tp), []) =>
+      let sq0 := parse_trace q delay in
+      let sq := if parsed then sq0 else mksimq (sq_c sq0) (sq_s sq0) None in
+      let hdr := if parsed then [[2; match sq_pps sq with Some x => x | None => 0 end]] else [] in
+      hdr ++
       match sim_advanced (N.to_nat 6000) cc sc (tape_of_list tp) sq delay pps args with
       | Ok tr => [0; N.of_nat (length tr)] :: map out_sev tr
       | o => [out_fail o]
